@@ -1,0 +1,94 @@
+// Copyright (c) 2026 10X Genomics, Inc. All rights reserved.
+
+//go:build verif
+
+package core
+
+// Hooks for the external verification harness, property C12 (resource
+// limits).  This file is only compiled with `-tags verif`.
+
+import "fmt"
+
+// VerifNewLocalJobManager builds a LocalJobManager with the given limits
+// (instead of deriving them from the host) and then runs the real
+// setupSemaphores.  The process-count semaphore, whose size depends on the
+// host's ulimit, is replaced by one of size procsMax (nil when procsMax <= 0).
+func VerifNewLocalJobManager(maxCores, maxMemGB int, maxVmemMB int64,
+	settings *JobManagerSettings, procsMax int64) *LocalJobManager {
+	self := &LocalJobManager{
+		jobSettings: settings,
+		jobDone:     make(chan struct{}, 1),
+		maxCores:    maxCores,
+		maxMemGB:    maxMemGB,
+		maxVmemMB:   maxVmemMB,
+	}
+	self.setupSemaphores()
+	if procsMax > 0 {
+		self.procsSem = NewResourceSemaphore(procsMax, DefaultResourceFormatter("processes"))
+	} else {
+		self.procsSem = nil
+	}
+	return self
+}
+
+// VerifSemaphores returns the four semaphores in acquisition order
+// (cores, memory, vmem, processes); absent ones are nil.
+func (self *LocalJobManager) VerifSemaphores() [4]*ResourceSemaphore {
+	return [4]*ResourceSemaphore{self.centcoreSem, self.memMBSem, self.vmemMBSem, self.procsSem}
+}
+
+// VerifMaxSize exposes maxSize.
+func (self *ResourceSemaphore) VerifMaxSize() int64 {
+	self.mu.Lock()
+	defer self.mu.Unlock()
+	return self.maxSize
+}
+
+// VerifWaiting returns the amounts of the queued requests, oldest first.
+func (self *ResourceSemaphore) VerifWaiting() []int64 {
+	self.mu.Lock()
+	defer self.mu.Unlock()
+	r := make([]int64, len(self.waiters))
+	for i, w := range self.waiters {
+		r[i] = w.amount
+	}
+	return r
+}
+
+// VerifSetMetadataState makes getState() report the given state:
+// "" (waiting, nothing known), "queued", "running", "complete", "failed".
+func VerifSetMetadataState(md *Metadata, state string) {
+	md.mutex.Lock()
+	defer md.mutex.Unlock()
+	for _, n := range []MetadataFileName{Errors, Assert, CompleteFile, DisabledFile, LogFile, JobInfoFile} {
+		md._uncacheNoLock(n)
+	}
+	switch state {
+	case "":
+	case "queued":
+		md._cacheNoLock(JobInfoFile)
+	case "running":
+		md._cacheNoLock(JobInfoFile)
+		md._cacheNoLock(LogFile)
+	case "complete":
+		md._cacheNoLock(JobInfoFile)
+		md._cacheNoLock(LogFile)
+		md._cacheNoLock(CompleteFile)
+	case "failed":
+		md._cacheNoLock(JobInfoFile)
+		md._cacheNoLock(Errors)
+	default:
+		panic(fmt.Sprintf("unknown state %q", state))
+	}
+}
+
+// VerifMetadataState exposes getState.
+func VerifMetadataState(md *Metadata) (string, bool) {
+	st, ok := md.getState()
+	return string(st), ok
+}
+
+// VerifMkdirs creates the metadata and files directories.
+func VerifMkdirs(md *Metadata) error {
+	return md.mkdirs()
+}
